@@ -10,7 +10,7 @@ import z3
 from eqlvc import z as Z
 from eqlvc.interp import (SV, ZV, C, D, Tup, Lst, Obj, Meth, Closure, Ref, NONE, TRUE, FALSE, State, Outcome,
                           OutOfSubset, NEXT, CONTINUE, BREAK, RETURN, RAISE, GENEXIT)
-from eqlvc.libmodel import LibModel, base_modenv
+from eqlvc.libmodel import LibModel, base_modenv, init_fields
 
 EMPTY_ARGS = z3.Const('EMPTY_ARGS', Z.Val)
 n_args = z3.Function('n_args', Z.Node, Z.I)
@@ -188,4 +188,60 @@ class FlattenMap(MapContract):
         return super().abstract_loop(eng, st, s, it, ordinal)
 
 
-CONTRACTS = [AttributeMap, IndexMap, CallMap, FlattenMap]
+class FlattenVariables(LibModel):
+    """Flatten._all_variable_instances_ (C16, C05): one binding of the variables a flatten is taken from has several
+    elements, so whatever keys results by the variables they depend on - the operators' result caches (cache keys =
+    _unique_variables_ of the operands) and their duplicate suppression - has to see the ELEMENT too: the flatten node lists
+    itself, besides every variable instance of its child."""
+    qual = 'symbolic:Flatten._all_variable_instances_'
+    cls = 'Flatten'
+    props = ('C16', 'C05')
+    modes = ('sound',)
+    trusted = ("_unique_variables_ is the de-duplicated _all_variable_instances_ (symbolic.py, executed for the cache keys in "
+               "BinaryOperator / LogicalOperator.__post_init__); @lru_cache is transparent",)
+
+    def modenv(self):
+        return base_modenv()
+
+    def setup(self, eng):
+        st = State()
+        st.fields = init_fields()
+        self.n = z3.Const('self', Z.Node)
+        st.locals['self'] = ZV(self.n, 'node')
+        st.ghost['self'] = self.n
+        return [st]
+
+    def getattr(self, eng, st, recv, name):
+        if isinstance(recv, ZV) and recv.ty in ('node', 'optnode') and name == '_all_variable_instances_':
+            return [(st, Obj('varlist', {'parts': [('all-of', recv.t)]}))]
+        return super().getattr(eng, st, recv, name)
+
+    def binop(self, eng, st, op, a, b):
+        def parts(x):
+            if isinstance(x, Obj) and x.kind == 'varlist':
+                return x.data['parts']
+            if isinstance(x, Lst) and all(isinstance(i, ZV) and i.ty == 'node' for i in x.items):
+                return [('node', i.t) for i in x.items]
+            return None
+        if isinstance(op, ast.Add) and parts(a) is not None and parts(b) is not None:
+            return Obj('varlist', {'parts': parts(a) + parts(b)})
+        return None
+
+    def on_exit(self, eng, o):
+        st = o.st
+        v = o.val
+        if o.sig != RETURN or not (isinstance(v, Obj) and v.kind == 'varlist'):
+            eng.oblige(st, "C16/flatten-variables/returns-a-list-of-variable-instances", z3.BoolVal(False))
+            return
+        ps = v.data['parts']
+        c = Z.f_child(self.n)
+        eng.oblige(st, "C16/flatten-variables/every-variable-of-the-child", z3.Or(*[z3.BoolVal(k == 'all-of') & (t == c) for k, t in ps])
+                   if ps else z3.BoolVal(False))
+        eng.oblige(st, "C16/flatten-variables/and-the-element-itself", z3.Or(*[z3.BoolVal(k == 'node') & (t == self.n) for k, t in ps])
+                   if ps else z3.BoolVal(False))
+
+    def signature(self, ob, model):
+        return {}
+
+
+CONTRACTS = [AttributeMap, IndexMap, CallMap, FlattenMap, FlattenVariables]
